@@ -59,16 +59,22 @@ HAND = {
 }
 
 
+SEED = ["0"]
+
+
 def run_check(scratch, prop, tier):
-    env = dict(os.environ, VERIF_REPO=scratch, VERIF_EVIDENCE_DIR=os.path.join(scratch, "evidence"), VERIF_REPLAY_DIR=os.path.join(scratch, "replays"))
+    env = dict(os.environ, VERIF_SEED=SEED[0], VERIF_REPO=scratch, VERIF_EVIDENCE_DIR=os.path.join(scratch, "evidence"), VERIF_REPLAY_DIR=os.path.join(scratch, "replays"))
     env.pop("MENELAUS_VERIF_PINNED", None)
     t0 = time.time()
     cp = subprocess.run([sys.executable, os.path.join(HERE, "check.py"), prop, "--tier", tier], capture_output=True, text=True, env=env, cwd=HERE)
     sig = ""
+    frac = ""
     for line in cp.stdout.splitlines():
         if line.startswith("violation:"):
             sig = line.split("sig=")[-1].split()[0]
-    return {"exit": cp.returncode, "caught": cp.returncode == 1 and "VIOLATION property=" in cp.stdout, "sig": sig, "wall_s": round(time.time() - t0, 1),
+        if "runs violated" in line:
+            frac = line.strip().split(" runs violated")[0].lstrip("(")
+    return {"exit": cp.returncode, "caught": cp.returncode == 1 and "VIOLATION property=" in cp.stdout, "sig": sig, "violating_runs": frac, "wall_s": round(time.time() - t0, 1),
             "harness": cp.stdout[-300:] if cp.returncode not in (0, 1) else ""}
 
 
@@ -76,8 +82,10 @@ def main():
     ap = argparse.ArgumentParser()
     ap.add_argument("--all-checks", action="store_true")
     ap.add_argument("--tier", default="quick")
+    ap.add_argument("--seed", default="0")
     ap.add_argument("filters", nargs="*")
     a = ap.parse_args()
+    SEED[0] = a.seed
     mutants = []
     import re
     for d in sorted(glob.glob(os.path.join(HERE, "seeded", "[CFP][0-9][0-9]-*"))):
@@ -130,7 +138,7 @@ def main():
             r["caught_by"] = [p for p, v in r["checks"].items() if v["caught"]]
             r["expected"] = checks
             results[name] = r
-            print(f"{name}: caught by {r['caught_by'] or 'NOTHING'}  " + " ".join(f"{p}:{v['exit']}({v['wall_s']}s)" for p, v in r["checks"].items()))
+            print(f"{name}: caught by {r['caught_by'] or 'NOTHING'}  " + " ".join(f"{p}:{v['exit']}[{v.get('violating_runs', '')}]({v['wall_s']}s)" for p, v in r["checks"].items()))
             sys.stdout.flush()
         finally:
             shutil.rmtree(scratch, ignore_errors=True)
